@@ -38,6 +38,13 @@ EXPECT = {
 class HGen(UGen):
     """UGen that can also emit invalid steps (they do not change the model)."""
 
+    def _emit(self, d):
+        # symbols with inner blanks / operator characters are legal symbols, too
+        style = self.draw(st.sampled_from([0, 0, 0, 0, 1, 2, 3]))
+        if style:
+            d = dict(d, symstyle=style)
+        return super()._emit(d)
+
     def bad_step(self):
         draw = self.draw
         m = self.m
@@ -181,8 +188,11 @@ class World:
         self.nsym = itertools.count()
         self.attempted = []       # symbols of rejected attempts
 
-    def newsym(self):
-        return f"{self.prefix}u{next(self.nsym)}"
+    def newsym(self, style=0):
+        """style 0: plain token; 1: inner blank; 2: non-ASCII / operator characters; 3: several blanks"""
+        n = next(self.nsym)
+        return {0: f"{self.prefix}u{n}", 1: f"{self.prefix} u{n}", 2: f"{self.prefix}µ·{n}²/x",
+                3: f"{self.prefix} sq  u {n}"}[style or 0]
 
 
 def _defn_obj(w: World, items, how):
@@ -219,12 +229,12 @@ def exec_valid(w: World, d, sym=None):
             kw["quantum"] = mknum(d["quantum"])
         if d["kind"] == "base":
             if d["ref"]:
-                kw.update(ref_unit_symbol=sym or w.newsym(), ref_unit_name=f"ref of {name}")
+                kw.update(ref_unit_symbol=sym or w.newsym(d.get("symstyle")), ref_unit_name=f"ref of {name}")
         else:
             kw["define_as"] = _defn_obj(w, d["def"], d["how"])
             has_ref = all(w.m.types[ti].has_ref for ti, _ in d["def"])
             if has_ref and d.get("refsym"):
-                kw.update(ref_unit_symbol=sym or w.newsym(), ref_unit_name=f"ref of {name}")
+                kw.update(ref_unit_symbol=sym or w.newsym(d.get("symstyle")), ref_unit_name=f"ref of {name}")
         cls = QuantityMeta(name, (Quantity,), {}, **kw)
         mt = w.m.add_type(d)
         w.types.append(cls)
@@ -234,7 +244,7 @@ def exec_valid(w: World, d, sym=None):
         return cls
     cls = w.types[d["t"]]
     how = d["how"]
-    sym = sym or w.newsym()
+    sym = sym or w.newsym(d.get("symstyle"))
     if how == "bare":
         u = cls.new_unit(sym, f"unit {sym}")
     elif how == "scaled":
@@ -463,7 +473,7 @@ def check_coherence(w: World, v15, full=True):
                 v15("derived_ref_unit", f"reference unit {s} of derived type #{mu.t} normalises to {nd!r}; expected the "
                     f"product of the base reference units {mu.bmap}")
             ps = m.predicted_symbol(uid, w.syms)
-            if ps is not None and not mu.plain_symbol and s != ps:
+            if ps is not None and mu.auto_symbol and s != ps:
                 v15("auto_symbol", f"generated symbol {s!r}, expected {ps!r}")
 
 
@@ -480,6 +490,14 @@ def run_history(case, ctx, v15, v16, coherence_every_step=True):
             try:
                 exec_valid(w, d)
             except Exception as exc:  # noqa: BLE001
+                if isinstance(exc, ValueError) and "already registered" in str(exc) and d["d"] == "type" and \
+                        d["kind"] == "derived" and not d.get("refsym") and \
+                        any(not w.m.units[w.m.types[ti].ref_uid].plain_symbol for ti, _ in d["def"]
+                            if w.m.types[ti].has_ref):
+                    # generated symbols are plain concatenations: 'a·b' cubed reads like a·(b cubed). The clash is
+                    # a duplicate symbol and is rejected as the property demands; the history ends here.
+                    ctx.label("auto_symbol_collision")
+                    return w
                 v15(f"valid_rejected/{d['d']}/{d.get('how', d.get('kind'))}/{type(exc).__name__}",
                     f"valid declaration #{i} {d} raised {type(exc).__name__}: {exc}")
                 return w
